@@ -343,4 +343,63 @@ theorem step_delSlice (xs : List Val) (s : Slice) (nt : Bool) (hx : Clean xs) :
       congr 1
       exact notifyIf_eq_purge (Or.inr (clean_dropIdxsFrom hx))
 
+/-! ### Closed form of the slice length -/
+
+theorem rangeUp_length {f : Nat} {a b c : Int} (hc : 0 < c) (hf : (b - a).toNat ≤ f) :
+    ((rangeUp f a b c).length : Int) = if a < b then (b - a - 1) / c + 1 else 0 := by
+  induction f generalizing a with
+  | zero =>
+    have : ¬ a < b := by omega
+    simp [rangeUp, this]
+  | succ f ih =>
+    unfold rangeUp
+    by_cases h : a < b
+    · simp only [h, if_true, List.length_cons]
+      push_cast
+      rw [ih (a := a + c) (by omega)]
+      by_cases h2 : a + c < b
+      · simp only [h2, if_true]
+        have e : b - (a + c) - 1 = (b - a - 1) + (-1) * c := by ring
+        rw [e, Int.add_mul_ediv_right _ _ (by omega : c ≠ 0)]
+        ring
+      · simp only [h2, if_false]
+        have : (b - a - 1) / c = 0 := Int.ediv_eq_zero_of_lt (by omega) (by omega)
+        rw [this]
+    · simp [h]
+
+theorem rangeDown_length {f : Nat} {a b c : Int} (hc : c < 0) (hf : (a - b).toNat ≤ f) :
+    ((rangeDown f a b c).length : Int) = if b < a then (a - b - 1) / (-c) + 1 else 0 := by
+  induction f generalizing a with
+  | zero =>
+    have : ¬ b < a := by omega
+    simp [rangeDown, this]
+  | succ f ih =>
+    unfold rangeDown
+    by_cases h : a > b
+    · have h' : b < a := h
+      simp only [h, if_true, List.length_cons]
+      push_cast
+      rw [ih (a := a + c) (by omega)]
+      by_cases h2 : b < a + c
+      · simp only [h2, if_true]
+        have e : a + c - b - 1 = (a - b - 1) + (-1) * (-c) := by ring
+        rw [e, Int.add_mul_ediv_right _ _ (by omega : -c ≠ 0)]
+        ring
+      · simp only [h2, if_false]
+        have : (a - b - 1) / (-c) = 0 := Int.ediv_eq_zero_of_lt (by omega) (by omega)
+        rw [this]
+    · have h' : ¬ b < a := h
+      simp [h]
+
+/-- `len(range(start, stop, step))` is CPython's closed form of the slice length. -/
+theorem pyRange_length_closed (a b c : Int) (hc : c ≠ 0) : ((pyRange a b c).length : Int) = sliceLen a b c := by
+  unfold pyRange sliceLen
+  by_cases h : c > 0
+  · have h' : ¬ c < 0 := by omega
+    simp only [h, if_true, h', if_false]
+    exact rangeUp_length h (Nat.le_refl _)
+  · have h' : c < 0 := by omega
+    simp only [h, if_false, h', if_true]
+    exact rangeDown_length h' (Nat.le_refl _)
+
 end Pg.C02
